@@ -75,7 +75,9 @@ RecordLoop:
 	for i := 0; i < numRecords; i++ {
 		hash := uint64(0)
 		for _, field := range p.options.FieldList {
-			hash ^= fieldToValues[field][i].Hash()
+			// Combine the per-field hashes in an order-dependent way: XOR made
+			// (x, y) collide with (y, x) and every (v, v) collide with every (w, w).
+			hash = hash*1099511628211 + fieldToValues[field][i].Hash()
 
 			if fieldToValues[field][i].Dtype == sutils.SS_DT_BACKFILL ||
 				fieldToValues[field][i].Dtype == sutils.SS_INVALID {
